@@ -134,6 +134,7 @@ type mcall struct {
 	done     chan struct{}
 	err      error
 	recv     *capsim.NullReturner
+	cancelled bool // made with a context that is already done: it may be refused with the context's error instead
 }
 
 type waiter struct {
@@ -165,6 +166,7 @@ type machine struct {
 	pipelinedBeforeResolve bool
 	repeatedClient         bool
 	joins                  int
+	cancelledCalls         int
 }
 
 var yieldTarget atomic.Value
@@ -372,6 +374,9 @@ func (m *machine) checkCall(c *mcall) error {
 		err = e
 	}
 	es := fmt.Sprint(err)
+	if c.cancelled && len(pipes) == 0 && len(caps) == 0 && err != nil && strings.Contains(es, "context canceled") {
+		return nil // refused because its context was done: delivered nowhere, failed with that error
+	}
 	switch {
 	case c.caller != nil:
 		if len(pipes) != 1 || len(caps) != 0 || pipes[0].Hook != c.caller.ID {
@@ -492,6 +497,14 @@ func (m *machine) exec(op Op) error {
 		start := m.startCall
 		if late {
 			start = m.startLate
+		}
+		if !late && !c.held && op.C%7 == 5 {
+			// the caller gave up before making the call
+			c.cancelled = true
+			m.cancelledCalls++
+			cctx, cancel := context.WithCancel(ctx)
+			cancel()
+			ctx = cctx
 		}
 		return start(c, func() {
 			if op.K == "pipeSend" {
@@ -886,6 +899,7 @@ func run(c Case) (pbt.Result, error) {
 	res.Class("repeated-client:%v", m.repeatedClient)
 	res.Class("joins:%d", imin(m.joins, 3))
 	res.Count("excluded_known_finding_ops", int64(m.excluded))
+	res.Count("calls_with_done_context", int64(m.cancelledCalls))
 	res.Nontrivial = m.pipelinedBeforeResolve || m.repeatedClient
 	return res, nil
 }
@@ -901,12 +915,39 @@ var opKinds = []string{"new", "pipeSend", "pipeSend", "pipeRecv", "client", "cli
 
 var _ = pbt.Register(pbt.Spec[Case]{
 	Property: "C11", Name: "sequential-model",
-	Rule:     "op scripts (up to 30 ops) over a pool of promises with instrumented pipeline callers: PipelineSend/PipelineRecv with transforms {[0],[1,0],[257],[2],[1],[1,5]} (calls may be held open inside their destination), Future.Client() for the same and for different paths (repeatedly), calls through the returned clients before and after resolution, Fulfill with a 258-pointer result carrying three counted capabilities, Reject, Join (chains, joins of resolved answers), ReleaseClients, Struct() waiters; operations predicted to wait for held calls run on their own goroutine. Model: per promise state/joined-to/outcome, per call its destination. Oracle: every call is delivered exactly once to the predicted destination - the root promise's pipeline caller with the same transform if made before resolution, otherwise the capability found at the transform in the result, or it fails with the rejection / null / not-a-capability error; asking for the same pipelined client twice yields the same client and every later op still returns; Done() closes and every waiter returns with the outcome; clients handed out before resolution keep the resolved capability alive after the result message is reset and are released by ReleaseClients (every capability shut down exactly once). Non-trivial: a pipelined call or a repeated Client() preceded resolution.",
+	Rule:     "op scripts (up to 30 ops; 1 in 6 is built around a chain of three promises joined tail first or head first after pipelined clients were handed out, resolved, the three owners releasing in a drawn order with calls in between) over a pool of promises with instrumented pipeline callers: PipelineSend/PipelineRecv with transforms {[0],[1,0],[257],[2],[1],[1,5]} (calls may be held open inside their destination; 1 in 7 of the others is made with a context that is already cancelled and may then be refused with that error instead of being delivered), Future.Client() for the same and for different paths (repeatedly), calls through the returned clients before and after resolution, Fulfill with a 258-pointer result carrying three counted capabilities, Reject, Join (chains, joins of resolved answers), ReleaseClients, Struct() waiters; operations predicted to wait for held calls run on their own goroutine. Model: per promise state/joined-to/outcome, per call its destination. Oracle: every call is delivered exactly once to the predicted destination - the root promise's pipeline caller with the same transform if made before resolution, otherwise the capability found at the transform in the result, or it fails with the rejection / null / not-a-capability error; asking for the same pipelined client twice yields the same client and every later op still returns; Done() closes and every waiter returns with the outcome; clients handed out before resolution keep the resolved capability alive after the result message is reset and are released by ReleaseClients (every capability shut down exactly once). Non-trivial: a pipelined call or a repeated Client() preceded resolution.",
 	Quick:    5000, Thorough: 50000,
 	Gen: func(t *rapid.T) Case {
 		ops := []Op{{K: "new"}}
+		random := func() Op {
+			return Op{K: rapid.SampledFrom(opKinds).Draw(t, "k"), A: rapid.IntRange(0, 5).Draw(t, "a"), B: rapid.IntRange(0, 5).Draw(t, "b"), C: rapid.IntRange(0, 5).Draw(t, "c")}
+		}
+		if rapid.IntRange(0, 5).Draw(t, "skeleton") == 0 {
+			// a chain of three joined promises, built tail first or head first, with pipelined clients handed out before
+			// the joins; then resolution, and the owners releasing one after the other with calls in between
+			sk := []Op{{K: "new"}, {K: "new"}}
+			for i, n := 0, rapid.IntRange(1, 3).Draw(t, "sk-clients"); i < n; i++ {
+				sk = append(sk, Op{K: "client", A: rapid.IntRange(0, 2).Draw(t, "sk-cp"), B: rapid.IntRange(0, 2).Draw(t, "sk-cpath")})
+			}
+			if rapid.Bool().Draw(t, "sk-tailfirst") {
+				sk = append(sk, Op{K: "join", A: 2, B: 1}, Op{K: "join", A: 1, B: 0})
+			} else {
+				sk = append(sk, Op{K: "join", A: 1, B: 0}, Op{K: "join", A: 2, B: 1})
+			}
+			sk = append(sk, Op{K: rapid.SampledFrom([]string{"fulfill", "fulfill", "reject"}).Draw(t, "sk-res"), A: 0})
+			for _, o := range rapid.Permutation([]int{0, 1, 2}).Draw(t, "sk-relorder") {
+				sk = append(sk, Op{K: "releaseClients", A: o}, Op{K: "callClient", A: rapid.IntRange(0, 2).Draw(t, "sk-cc"), C: 1})
+			}
+			for _, o := range sk {
+				ops = append(ops, o)
+				if rapid.IntRange(0, 2).Draw(t, "sk-gap") == 0 {
+					ops = append(ops, random())
+				}
+			}
+			return Case{Ops: ops}
+		}
 		for i, n := 0, rapid.IntRange(1, 30).Draw(t, "n"); i < n; i++ {
-			ops = append(ops, Op{K: rapid.SampledFrom(opKinds).Draw(t, "k"), A: rapid.IntRange(0, 5).Draw(t, "a"), B: rapid.IntRange(0, 5).Draw(t, "b"), C: rapid.IntRange(0, 5).Draw(t, "c")})
+			ops = append(ops, random())
 		}
 		return Case{Ops: ops}
 	},
